@@ -165,6 +165,14 @@ def gen_layout(rng, desc, for_cli=False, ambiguous=None, d9=None, badtop=False):
             if which == "all":
                 extras.append({"path": f"ffcopies/{desc['species'][k]['name']}_end_copy.gro", "kind": "explicit-copy",
                                "of": k, "role": "aagro"})
+    # a LOOK-ALIKE start topology: another molecule name, the residue signature (names, atom counts) of a system
+    # species, but other atom names (a stale alternative model kept in the same folder).  The system refuses it
+    # (atom names do not match) and must be left exactly as it was, whatever the order in which the candidates
+    # are tried (seed C20-6: a refused topology leaves its residues claimed, so the real one is then refused —
+    # for the hash seeds that happen to visit the look-alike first)
+    if rng.random() < 0.4:
+        k = rng.randrange(len(species))
+        extras.append({"path": f"alt_{desc['species'][k]['name']}_model.itp", "kind": "lookalike", "of": k})
     seen = set()
     extras = [e for e in extras if not (e["path"] in seen or seen.add(e["path"]))]
     layout = {"style": style, "species": species, "foreign": foreign, "extras": extras,
@@ -257,6 +265,12 @@ def materialize(desc, layout, root):
             open(ap(e["path"]), "w").write("[ moleculetype ]\nBRK 1\n\n[ atoms ]\n1 C one RES A 1 0.0 12.0\n")
         elif e["kind"] == "badtop":
             open(ap(e["path"]), "w").write(BADTOPS[e.get("variant", "ff")])
+        elif e["kind"] == "lookalike":
+            sp = desc["species"][e["of"]]
+            alt = {"residues": [{"resname": r["resname"], "atoms": [f"Z{j + 1}" for j in range(len(r["atoms"]))]}
+                                for r in sp["cg"]["residues"]],
+                   "bonds": sp["cg"]["bonds"]}
+            mgrgen.write_itp(ap(e["path"]), "ALT" + sp["name"][:6], alt, comment="look-alike")
         elif e["kind"] == "explicit-copy":
             sp = desc["species"][e["of"]]
             write_species(sp, {"cg": e["path"] if e["role"] == "cg" else None,
